@@ -72,6 +72,8 @@ def random_script(rng, n, wrap_octets=False):
             st.last = (w + k - 1) % 65536
         st.sent += k
         steps.append(ev("rtp", s=st.s, w=w % 65536, ts=ts, ln=ln, t=now, k=k))
+        if rng.random() < 0.08:       # the next writer refuses the packet(s): written on the stream all the same
+            steps[-1]["wfail"] = True
         if rng.random() < 0.15:       # packets with the padding bit: the octet count is about the payload handed to Write
             steps[-1]["pad"] = rng.choice([4, 8, 255, -1])
 
